@@ -274,7 +274,7 @@ Section Dispatch.
   Variable face_cleanup : N -> ribT -> fibT -> ribT * fibT.
 
   Variable allow_localhop : bool.           (* core config Mgmt.AllowLocalhop -> enableLocalhopManagement *)
-  (* external code (codec): does the encoded dataset fit one segment (makeStatusDataset: len(dataset) <= 8000)?
+  (* external code (codec): does the dataset fit one Data packet (at most MaxNDNPacketSize bytes)? makeStatusDataset publishes a single segment.
      If not, nothing is sent (the dataset version is consumed all the same). *)
   Variable ds_fits : dataset -> bool.
   Definition publish (nm : dsname) (version : N) (d : dataset) : resp :=
